@@ -1,10 +1,14 @@
-import Pendulum.Drv.Util
-/-! request handler for property C02 (stub until the property is built) -/
+import Pendulum.Drv.DTUtil
+/-! C02 requests: `create <zref> <wall> <fold> <raise>` -/
 namespace Pendulum.Drv.C02
-open Pendulum Pendulum.Drv
+open Pendulum Pendulum.Drv Pendulum.DTOps
 
-def handle (_zs : Zones) (ws : List String) : Option String :=
+def handle (zs : Zones) (ws : List String) : Option String :=
   match ws with
+  | ["create", z, w, f, r] => do
+    let z ← parseZRef zs z
+    let w ← w.toInt?
+    some (replyV (create z w (f == "1") (r == "1")))
   | _ => none
 
 end Pendulum.Drv.C02
